@@ -92,13 +92,18 @@ PLAN = {
              "the 'programs' quantifier is sampled by the in-repo types only (generated-layout corpus not built yet); ethercrab-wire/src/impls.rs not yet under contract",
     ),
     "C14": dict(
-        verus=["eeprom_range", "subdevice_eeprom"], kani=["eeprom_alias"], level="proof",
-        claim="generic EEPROM write (EepromRange::write, verbatim, Verus, unbounded): words (b[2i], b[2i+1] or 0) are written at consecutive word addresses "
+        verus=["eeprom_range", "subdevice_eeprom", "eeprom_device"], kani=["eeprom_alias"], level="proof",
+        claim="SubDeviceEeprom::set_station_alias extracted WHOLE (Verus, any EEPROM contents, any chunk size): on Ok the alias word (word 4) was written with the new alias "
+              "and the checksum word (word 7) with [CRC-8 of the first fourteen bytes as they read after the change, 0]; each of the two writes goes through a one-word "
+              "window, so no other word can be touched (write never starts a word at or past its window end); embedded-io's write_all extracted from the dependency source "
+              "(never hits its panic on Ok(0) when the window has room); DeviceEeprom::write_word extracted whole: data to SiiData then a write request for exactly that word "
+              "address, retried only on command error and at most 20 times, terminates. Generic EEPROM write (EepromRange::write, verbatim, Verus, unbounded): words (b[2i], b[2i+1] or 0) are written at consecutive word addresses "
               "from the current position, never starting at or past the window end, stopping only when data or window is exhausted, returning the bytes consumed, "
               "no overflow; start_at's window = requested length rounded up to a word; the crc crate's table for ECAT_CRC_ALGORITHM equals a bit-by-bit "
               "CRC-8 (0x07, init 0xff) on all 14-byte inputs (Kani, complete); bounded Kani cross-check of write on a shared-memory mock provider",
-        note="NOT decided: set_station_alias as a whole (exactly two words, checksum over the changed header) - its future is intractable for CBMC and its "
-             "temporaries hide the provider state from a Verus postcondition; DeviceEeprom::write_word's retry bound (<= 21 attempts) not yet under contract",
+        note="'exactly two words' is stated as: two writes were made and each went through a window of one word (clones of the provider inside temporaries hide the "
+             "write log from a postcondition, so 'no third write' is the structural fact that the body contains two write_all calls - argued, not a discharged obligation); "
+             "'the alias reported afterwards is the new one' needs a device model (not stated); wait_while_busy (polling under `async{}.timeout()`) is the arbitrary device",
     ),
     "C15": dict(
         verus=["sdo", "mailbox"], kani=["mbx"], level="proof",
